@@ -4,7 +4,7 @@ CONSTANTS
   Times = {1, 2, 3}
   SegSize = 4
   Menu <- MenuQuick
-  MaxOps = 8
+  MaxOps = 7
   MaxEntries = 4
   MaxPending = 2
   HoleQuirk = FALSE
